@@ -116,6 +116,30 @@ fn main() {
                 cell!(ctx, "iupac/exact-fit/{}/pad{}", len_class(4, n), pad % 16);
             }
         });
+        ctx.group("iupac/huge", |ctx| {
+            // 2^10 .. 2^16 symbols and 65 .. 2049 machine words; the argument is a subset of the pattern everywhere
+            // except at one offending position placed in the tail after the last full block of 4096 / 1024 / 256
+            // symbols, in the first block, at a block seam, or nowhere
+            for (k, n) in huge_lengths(ctx, 4).into_iter().enumerate() {
+                let x = structured_codes(&mut ctx.rng, a, n, k);
+                let mut y: Vec<u8> = x.iter().map(|c| c & ctx.rng.byte()).collect();
+                let blk = [4096usize, 1024, 256, 64][k % 4];
+                let pos = match k % 5 {
+                    0 => Some(n - 1 - ctx.rng.below((n % blk).max(1))),       // in the tail after the last full block
+                    1 => Some(ctx.rng.below(blk.min(n))),                      // in the first block
+                    2 => Some(((n / blk) * blk).saturating_sub(1).min(n - 1)), // last position of the last full block
+                    3 => Some((n / blk) * blk % n),                            // first position of the tail
+                    _ => None,
+                };
+                if let Some(p) = pos {
+                    let stray = (1u8 << ctx.rng.below(4)) & !x[p];
+                    y[p] |= if stray != 0 { stray } else { !x[p] & 15 };
+                }
+                let (p1, p2) = [(0, 0), (1, 0), (0, 3), (5, 9)][k % 4];
+                ops(ctx, &x, &y, p1, p2, "huge");
+                cell!(ctx, "iupac/huge/2^{}", usize::BITS - n.leading_zeros());
+            }
+        });
         ctx.group("iupac/random-longer", |ctx| {
             for r in 0..ctx.n(6000, 120_000, 4) {
                 if ctx.over() {
